@@ -523,6 +523,34 @@ async fn instance_meta_repo(r: &mut StdRng, n_rounds: u64, dir: &str, rep: &mut 
                 want.insert(format!("{}|{}|{}", key.namespace_id, key.group_name, key.service_name), w);
                 keys.push(key);
             }
+            // later updates of services that already have a file: fewer / shorter / more records than the file holds (the record file of a
+            // service is rewritten as a whole; what the previous, longer version left behind must not be decoded)
+            let n_again = if round % 2 == 0 { 0 } else { keys.len().min(*pick(r, &[1usize, 3, 10])) };
+            for ui in 0..n_again {
+                let key = keys[(ui * 7 + round as usize) % keys.len()].clone();
+                for _ in 0..r.gen_range(1..4usize) {
+                    let n_inst = *pick(r, &[0usize, 1, 2, 5, 30]);
+                    let mut recs = vec![];
+                    let mut w = vec![];
+                    for ii in 0..n_inst {
+                        let mut md = HashMap::new();
+                        let mut mdv = vec![];
+                        for mi in 0..r.gen_range(0..4usize) {
+                            let v = "u".repeat(*pick(r, &[0usize, 2, 40, 700]));
+                            md.insert(format!("k{}", mi), v.clone());
+                            mdv.push((format!("k{}", mi), v));
+                        }
+                        mdv.sort();
+                        let ip = format!("10.9.{}.{}", ii % 250, r.gen_range(1..250));
+                        recs.push(InstanceMetaDto::new(key.clone(), InstanceShortKey::new(Arc::new(ip.clone()), 9000 + ii as u32), Arc::new(md)));
+                        w.push((ip, 9000 + ii as u32, mdv));
+                    }
+                    w.sort();
+                    repo.update_metadata(&key, recs).await?;
+                    want.insert(format!("{}|{}|{}", key.namespace_id, key.group_name, key.service_name), w);
+                }
+                rep.shape("instance-meta-repository/service-file-rewritten".to_string());
+            }
         }
         let catalogue_len = std::fs::metadata(format!("{}/file_map", base)).map(|m| m.len()).unwrap_or(0);
         let tail = if catalogue_len % 1024 == 0 { "chunk-aligned" } else if catalogue_len < 1024 { "one-short-chunk" } else { "short-last-chunk" };
